@@ -108,10 +108,11 @@ type c20Pkg struct {
 
 // a function value: a closure (literal + environment) or a declared function
 type c20Val struct {
-	lit *ast.FuncLit
-	env *c20Env
-	fn  *c20Fn
-	pkg *c20Pkg
+	creatorMust uint64 // literal: locks known to be held by the CALLER of the declared function that created it
+	lit         *ast.FuncLit
+	env         *c20Env
+	fn          *c20Fn
+	pkg         *c20Pkg
 }
 
 func (v *c20Val) id() string {
@@ -123,9 +124,11 @@ func (v *c20Val) id() string {
 
 // environment: constant booleans and function values bound to parameters / locals
 type c20Env struct {
-	bools map[types.Object]bool
-	funcs map[types.Object][]*c20Val
-	priv  map[types.Object]bool // variables known to denote an object created in this call chain and not yet shared
+	bools     map[types.Object]bool
+	funcs     map[types.Object][]*c20Val
+	outerMust uint64 // for the body of a literal: entry must-set of the declared function that created it
+	hasOuter  bool
+	priv      map[types.Object]bool // variables known to denote an object created in this call chain and not yet shared
 }
 
 func newC20Env() *c20Env {
@@ -145,6 +148,7 @@ func (e *c20Env) clone() *c20Env {
 	for k, v := range e.priv {
 		n.priv[k] = v
 	}
+	n.outerMust, n.hasOuter = e.outerMust, e.hasOuter
 	return n
 }
 func (e *c20Env) key() string {
@@ -157,6 +161,9 @@ func (e *c20Env) key() string {
 	}
 	for k := range e.priv {
 		parts = append(parts, fmt.Sprintf("%d=priv", k.Pos()))
+	}
+	if e.hasOuter {
+		parts = append(parts, fmt.Sprintf("outer=%x", e.outerMust))
 	}
 	for k, vs := range e.funcs {
 		ids := []string{}
@@ -245,7 +252,9 @@ type c20X struct {
 	changed        bool
 	heldSite       map[int]string
 	pendingUnbound string
-	litOwner       map[token.Pos]string // body position of a literal -> enclosing declared function
+	litOwner       map[token.Pos]string  // body position of a literal -> enclosing declared function
+	liveParams     map[types.Object]bool // parameters of callbacks given to iterateAllDestinations
+	aliasSum       map[*c20Fn]map[int]bool
 	userCb         map[string]bool
 }
 
@@ -374,6 +383,21 @@ func (x *c20X) index(p *c20Pkg) {
 					if l, ok := nd.(*ast.FuncLit); ok {
 						x.litOwner[l.Body.Pos()] = name
 					}
+					if c, ok := nd.(*ast.CallExpr); ok {
+						if sel, ok := c.Fun.(*ast.SelectorExpr); ok && sel.Sel.Name == "iterateAllDestinations" {
+							for _, a := range c.Args {
+								if l, ok := a.(*ast.FuncLit); ok && l.Type.Params != nil {
+									for _, fld := range l.Type.Params.List {
+										for _, nm := range fld.Names {
+											if o := p.info.Defs[nm]; o != nil {
+												x.liveParams[o] = true
+											}
+										}
+									}
+								}
+							}
+						}
+					}
 					if ft, ok := nd.(*ast.FuncType); ok && ft.Params != nil {
 						for _, fld := range ft.Params.List {
 							if c20Qualified(p, fld.Type) {
@@ -470,15 +494,24 @@ func c20RecvName(e ast.Expr) string {
 // the interpreter
 
 type c20Frame struct {
-	decl     string // enclosing declared function
-	pkg      *c20Pkg
-	env      *c20Env
-	exit     c20State // merge of the states at every return
-	brk      []*c20State
-	cont     []*c20State
-	fnName   string
-	results  *ast.FieldList
-	retFuncs []*c20Val // function values returned
+	entryMust uint64 // locks the caller is known to hold at entry
+	decl      string // enclosing declared function
+	pkg       *c20Pkg
+	env       *c20Env
+	exit      c20State // merge of the states at every return
+	brk       []*c20State
+	cont      []*c20State
+	fnName    string
+	results   *ast.FieldList
+	retFuncs  []*c20Val // function values returned
+}
+
+// outerMust: the must-set at entry of the enclosing DECLARED function (a literal inherits its creator's)
+func (fr *c20Frame) outerMust() uint64 {
+	if fr.env != nil && fr.env.hasOuter {
+		return fr.env.outerMust
+	}
+	return fr.entryMust
 }
 
 func (x *c20X) posStr(p *c20Pkg, pos token.Pos) string {
@@ -759,6 +792,231 @@ func (x *c20X) externalTyped(fr *c20Frame, e ast.Expr, depth int) bool {
 	return false
 }
 
+// ---- datum rule "what leaves a shard lock is a copy" -------------------------------------------------
+// Live shard state = a *destination taken out of destinationShard.mp (range / index, directly or through
+// a local), the parameter of a callback given to iterateAllDestinations, or the knownPathList slice of
+// such a destination.  It ESCAPES when it is returned to — or collected for — a caller that does not hold
+// the shard lock (the frame was entered without it): the caller will read it after the lock is released,
+// concurrently with Table.update → destination.Calculate on the same prefix.
+
+var c20ShardState = map[string]bool{"destinationShard.mp": true}
+
+func (x *c20X) mentionsShardState(fr *c20Frame, e ast.Expr, depth int) bool {
+	if e == nil || depth > 4 {
+		return false
+	}
+	found := false
+	ast.Inspect(e, func(nd ast.Node) bool {
+		if found {
+			return false
+		}
+		switch nd := nd.(type) {
+		case *ast.FuncLit:
+			return false
+		case *ast.SelectorExpr:
+			if sel, ok := fr.pkg.info.Selections[nd]; ok {
+				if v, ok := sel.Obj().(*types.Var); ok && c20ShardState[x.owner[v]] {
+					found = true
+				}
+			}
+		case *ast.Ident:
+			obj := fr.pkg.info.Uses[nd]
+			if v, ok := obj.(*types.Var); ok && !v.IsField() {
+				if rhs, _, ok := x.defOf(fr.pkg, obj); ok && rhs != e {
+					if _, isType := fr.pkg.info.Types[rhs]; !isType || !fr.pkg.info.Types[rhs].IsType() {
+						if x.mentionsShardState(fr, rhs, depth+1) {
+							found = true
+						}
+					}
+				}
+			}
+		}
+		return !found
+	})
+	return found
+}
+
+func c20IsDestPtr(t types.Type) bool {
+	p, ok := t.(*types.Pointer)
+	if !ok {
+		return false
+	}
+	n, ok := p.Elem().(*types.Named)
+	return ok && n.Obj().Name() == "destination"
+}
+
+// aliasSummary: which inputs of a single-result function its result may alias — receiver (-1) or
+// parameter i: the result is that input itself, a (sub-)slice of it, its knownPathList field, or what a
+// callee with such a summary returns for it.  (getMultiBestPath returns pathList[:n]; GetMultiBestPath
+// passes dd.knownPathList to it, so its result aliases the receiver's list.)
+func (x *c20X) aliasSummary(fn *c20Fn, depth int) map[int]bool {
+	if s, ok := x.aliasSum[fn]; ok {
+		return s
+	}
+	res := map[int]bool{}
+	x.aliasSum[fn] = res
+	if depth > 4 || fn.decl.Type.Results == nil || len(fn.decl.Type.Results.List) != 1 {
+		return res
+	}
+	inputs := map[types.Object]int{}
+	if fn.decl.Recv != nil {
+		for _, nm := range fn.decl.Recv.List[0].Names {
+			inputs[fn.pkg.info.Defs[nm]] = -1
+		}
+	}
+	i := 0
+	for _, fld := range fn.decl.Type.Params.List {
+		if len(fld.Names) == 0 {
+			i++
+		}
+		for _, nm := range fld.Names {
+			inputs[fn.pkg.info.Defs[nm]] = i
+			i++
+		}
+	}
+	var of func(e ast.Expr, d int) []int
+	of = func(e ast.Expr, d int) []int {
+		if d > 4 {
+			return nil
+		}
+		switch e := ast.Unparen(e).(type) {
+		case *ast.Ident:
+			if k, ok := inputs[fn.pkg.info.Uses[e]]; ok {
+				return []int{k}
+			}
+		case *ast.SliceExpr:
+			return of(e.X, d+1)
+		case *ast.SelectorExpr:
+			if sel, ok := fn.pkg.info.Selections[e]; ok {
+				if v, ok := sel.Obj().(*types.Var); ok && x.owner[v] == "destination.knownPathList" {
+					return of(e.X, d+1)
+				}
+			}
+		case *ast.CallExpr:
+			cfr := &c20Frame{pkg: fn.pkg, env: newC20Env()}
+			if g := x.staticCallee(cfr, e); g != nil && g != fn {
+				var out []int
+				for j := range x.aliasSummary(g, depth+1) {
+					if j == -1 {
+						if sel, ok := ast.Unparen(e.Fun).(*ast.SelectorExpr); ok {
+							out = append(out, of(sel.X, d+1)...)
+						}
+					} else if j < len(e.Args) {
+						out = append(out, of(e.Args[j], d+1)...)
+					}
+				}
+				return out
+			}
+		}
+		return nil
+	}
+	c20InspectNoLits(fn.decl.Body, func(nd ast.Node) {
+		if r, ok := nd.(*ast.ReturnStmt); ok && len(r.Results) == 1 {
+			for _, k := range of(r.Results[0], 0) {
+				res[k] = true
+			}
+		}
+	})
+	return res
+}
+
+// liveShardState: e denotes live shard state (see above); the second result says what kind
+func (x *c20X) liveShardState(fr *c20Frame, e ast.Expr) (bool, string) {
+	return x.liveShardStateD(fr, e, 0)
+}
+
+func (x *c20X) liveShardStateD(fr *c20Frame, e ast.Expr, depth int) (bool, string) {
+	if depth > 5 {
+		return false, ""
+	}
+	e = ast.Unparen(e)
+	switch e := e.(type) {
+	case *ast.Ident:
+		obj := fr.pkg.info.Uses[e]
+		v, ok := obj.(*types.Var)
+		if !ok || v.IsField() || fr.env.priv[obj] {
+			return false, ""
+		}
+		if x.liveParams[obj] {
+			return true, "destination passed to an iterateAllDestinations callback"
+		}
+		if rhs, _, ok := x.defOf(fr.pkg, obj); ok {
+			if tv, isT := fr.pkg.info.Types[rhs]; isT && tv.IsType() {
+				return false, ""
+			}
+			if _, isCall := ast.Unparen(rhs).(*ast.CallExpr); isCall {
+				return x.liveShardStateD(fr, rhs, depth+1)
+			}
+			if c20IsDestPtr(v.Type()) && x.mentionsShardState(fr, rhs, 0) {
+				return true, "destination taken out of destinationShard.mp"
+			}
+			if _, isSel := ast.Unparen(rhs).(*ast.SelectorExpr); isSel {
+				return x.liveShardStateD(fr, rhs, depth+1)
+			}
+		}
+	case *ast.SliceExpr:
+		return x.liveShardStateD(fr, e.X, depth+1)
+	case *ast.SelectorExpr:
+		if sel, ok := fr.pkg.info.Selections[e]; ok {
+			if v, ok := sel.Obj().(*types.Var); ok && x.owner[v] == "destination.knownPathList" {
+				if live, _ := x.liveShardStateD(fr, e.X, depth+1); live {
+					return true, "knownPathList slice of a live destination"
+				}
+			}
+		}
+	case *ast.CallExpr:
+		// result of a call: live only if the callee hands back an alias of a live input
+		g := x.staticCallee(fr, e)
+		if g == nil {
+			return false, "" // snapshot()/copies through append, slices.Clone, make+copy end up here or below
+		}
+		for j := range x.aliasSummary(g, 0) {
+			var in ast.Expr
+			if j == -1 {
+				if sel, ok := ast.Unparen(e.Fun).(*ast.SelectorExpr); ok {
+					in = sel.X
+				}
+			} else if j < len(e.Args) {
+				in = e.Args[j]
+			}
+			if in != nil {
+				if live, kind := x.liveShardStateD(fr, in, depth+1); live {
+					return true, "alias of [" + kind + "] returned by " + g.name
+				}
+			}
+		}
+	}
+	return false, ""
+}
+
+func (x *c20X) noteEscape(fr *c20Frame, st c20State, e ast.Expr, how string) {
+	if !x.recording || fr.pkg.name != "table" {
+		return
+	}
+	live, kind := x.liveShardState(fr, e)
+	if !live || x.isPriv(fr, e, 0) {
+		return // not shard state, or the state of a table private to this call chain
+	}
+	// the caller holds the shard lock (getOrCreateDest & co. under Table.update): not an escape.  Inside a
+	// literal (e.g. the callback of iterateAllDestinations, entered under the lock) what is collected into
+	// a captured variable leaves with the enclosing function: its caller's locks count.
+	must := fr.entryMust
+	if fr.env != nil && fr.env.hasOuter && strings.HasPrefix(how, "appended") {
+		must = fr.env.outerMust
+	}
+	for b := 0; b < 64; b++ {
+		if must&(1<<uint(b)) != 0 && x.lockNames[b/2] == "destinationShard.mu" {
+			return
+		}
+	}
+	x.stats["live_shard_state_flows_checked"]++
+	k := "shardEscape|" + fr.decl + "|" + how
+	if _, ok := x.access[k]; !ok {
+		x.access[k] = &c20Access{what: "shardEscape", fn: fr.decl, must: 0,
+			root: kind + " " + how + " in " + fr.fnName + " @" + x.posStr(fr.pkg, e.Pos()) + " reached via " + x.curRoot + ">" + strings.Join(x.stack, ">")}
+	}
+}
+
 func c20InspectNoLits(n ast.Node, f func(ast.Node)) {
 	ast.Inspect(n, func(nd ast.Node) bool {
 		if _, ok := nd.(*ast.FuncLit); ok {
@@ -799,7 +1057,7 @@ func (x *c20X) staticCallee(fr *c20Frame, call *ast.CallExpr) *c20Fn {
 func (x *c20X) funcVals(fr *c20Frame, e ast.Expr) []*c20Val {
 	switch e := ast.Unparen(e).(type) {
 	case *ast.FuncLit:
-		return []*c20Val{{lit: e, env: fr.env, pkg: fr.pkg}}
+		return []*c20Val{{lit: e, env: fr.env, pkg: fr.pkg, creatorMust: fr.outerMust()}}
 	case *ast.Ident:
 		obj := fr.pkg.info.Uses[e]
 		if obj == nil {
@@ -929,7 +1187,7 @@ func (x *c20X) bindParams(fr *c20Frame, env *c20Env, pkg *c20Pkg, ftype *ast.Fun
 func (x *c20X) calleeVals(fr *c20Frame, call *ast.CallExpr) []*c20Val {
 	fun := ast.Unparen(call.Fun)
 	if lit, ok := fun.(*ast.FuncLit); ok {
-		return []*c20Val{{lit: lit, env: fr.env, pkg: fr.pkg}}
+		return []*c20Val{{lit: lit, env: fr.env, pkg: fr.pkg, creatorMust: fr.outerMust()}}
 	}
 	if fn := x.staticCallee(fr, call); fn != nil {
 		return []*c20Val{{fn: fn, pkg: fn.pkg}}
@@ -1122,7 +1380,7 @@ func (x *c20X) expr(fr *c20Frame, st c20State, e ast.Node) c20State {
 		// a literal that is not called here: it may run later on another goroutine -> analysed as a root
 		// and, conservatively, as if it were called right here under the locks now held (slices of
 		// closures called in the same function, filters registered and called under the same lock)
-		v := &c20Val{lit: e, env: fr.env, pkg: fr.pkg}
+		v := &c20Val{lit: e, env: fr.env, pkg: fr.pkg, creatorMust: fr.outerMust()}
 		x.addAsync(v)
 		x.invoke(fr, st, v, nil)
 		return st
@@ -1249,6 +1507,14 @@ func (x *c20X) call(fr *c20Frame, st c20State, call *ast.CallExpr, isGo bool) c2
 			return st
 		}
 	}
+	if id, ok := call.Fun.(*ast.Ident); ok && id.Name == "append" && fr.pkg.info.Uses[id] == types.Universe.Lookup("append") && len(call.Args) > 1 {
+		// collecting live shard state into a slice that is not the shard's own map entry
+		if !x.mentionsShardState(fr, call.Args[0], 0) {
+			for _, a := range call.Args[1:] {
+				x.noteEscape(fr, st, a, "appended to "+types.ExprString(call.Args[0]))
+			}
+		}
+	}
 	if id, ok := call.Fun.(*ast.Ident); ok && id.Name == "panic" && fr.pkg.info.Uses[id] == types.Universe.Lookup("panic") {
 		for _, a := range call.Args {
 			st = x.expr(fr, st, a)
@@ -1275,7 +1541,7 @@ func (x *c20X) call(fr *c20Frame, st c20State, call *ast.CallExpr, isGo bool) c2
 	async := isGo || c20Async[c20CalleeName(call)]
 	for _, a := range call.Args {
 		if lit, ok := ast.Unparen(a).(*ast.FuncLit); ok {
-			v := &c20Val{lit: lit, env: fr.env, pkg: fr.pkg}
+			v := &c20Val{lit: lit, env: fr.env, pkg: fr.pkg, creatorMust: fr.outerMust()}
 			if async && len(targets) == 0 {
 				x.addAsync(v)
 			} else if len(targets) == 0 {
@@ -1368,6 +1634,7 @@ func (x *c20X) invoke(fr *c20Frame, st c20State, v *c20Val, call *ast.CallExpr) 
 		x.visited[v.fn] = true
 	} else {
 		body, ftype, env = v.lit.Body, v.lit.Type, v.env.clone()
+		env.outerMust, env.hasOuter = v.creatorMust, true
 		name = "lit@" + x.posStr(v.pkg, v.lit.Pos())
 	}
 	if call != nil {
@@ -1397,7 +1664,7 @@ func (x *c20X) run(pkg *c20Pkg, name string, body *ast.BlockStmt, ftype *ast.Fun
 	}
 	x.inprog[key] = true
 	x.stack = append(x.stack, name)
-	nfr := &c20Frame{pkg: pkg, env: env, fnName: name, decl: name, exit: c20State{dead: true}}
+	nfr := &c20Frame{pkg: pkg, env: env, fnName: name, decl: name, exit: c20State{dead: true}, entryMust: st.must}
 	if o, ok := x.litOwner[body.Pos()]; ok {
 		nfr.decl = o
 	}
@@ -1567,10 +1834,11 @@ func (x *c20X) stmt(fr *c20Frame, st c20State, s ast.Stmt) c20State {
 		for _, r := range s.Results {
 			if lit, ok := ast.Unparen(r).(*ast.FuncLit); ok {
 				_ = lit // returned closure: picked up by returnedFuncs at the call site; also a root
-				x.addAsync(&c20Val{lit: lit, env: fr.env, pkg: fr.pkg})
+				x.addAsync(&c20Val{lit: lit, env: fr.env, pkg: fr.pkg, creatorMust: fr.outerMust()})
 				continue
 			}
 			st = x.expr(fr, st, r)
+			x.noteEscape(fr, st, r, "returned")
 		}
 		fr.exit = fr.exit.merge(x.runDefers(fr, st))
 		st.dead = true
@@ -1634,7 +1902,7 @@ func (x *c20X) stmt(fr *c20Frame, st c20State, s ast.Stmt) c20State {
 				var vs []*c20Val
 				for _, el := range cl.Elts {
 					if lit, ok := ast.Unparen(el).(*ast.FuncLit); ok {
-						vs = append(vs, &c20Val{lit: lit, env: fr.env, pkg: fr.pkg})
+						vs = append(vs, &c20Val{lit: lit, env: fr.env, pkg: fr.pkg, creatorMust: fr.outerMust()})
 					}
 				}
 				if len(vs) > 0 && len(vs) == len(cl.Elts) {
@@ -1742,7 +2010,7 @@ func c20Extract(serverDir, tableDir string) (*c20Result, error) {
 		mutex: map[string]bool{}, lockIdx: map[string]int{}, edges: map[c20Edge][]string{}, access: map[string]*c20Access{},
 		leaks: map[string]string{}, unknown: map[string]string{}, fieldFns: map[*types.Var][]*c20Val{},
 		asyncSeen: map[string]bool{}, stats: map[string]int{}, heldSite: map[int]string{},
-		visited: map[*c20Fn]bool{}, called: map[*c20Fn]bool{}, litOwner: map[token.Pos]string{}, userCb: map[string]bool{}}
+		visited: map[*c20Fn]bool{}, called: map[*c20Fn]bool{}, litOwner: map[token.Pos]string{}, liveParams: map[types.Object]bool{}, aliasSum: map[*c20Fn]map[int]bool{}, userCb: map[string]bool{}}
 	im := &c20Importer{known: map[string]*types.Package{}}
 	tp, err := c20Load(tableDir, "github.com/osrg/gobgp/v4/internal/pkg/table", im)
 	if err != nil {
@@ -1981,7 +2249,10 @@ func c20Report(o *vOut, res *c20Result) {
 		line := fmt.Sprintf("access %s %s %s %d %s", a.what, a.fn, w, len(names), strings.Join(names, " "))
 		o.ask("ok", "%s", strings.TrimSpace(line))
 		o.stat("access_"+a.what, 1)
-		if !c20GuardOK(a.what, a.fn, a.write, names) {
+		if a.what == "shardEscape" {
+			o.fail("live-shard-state-escapes-lock", map[string]any{"in": a.fn, "flow": a.root,
+				"rule": "what leaves a shard lock must be a copy (snapshot()/GetAllKnownPathList()): the caller reads it after the lock is released while Table.update -> destination.Calculate rewrites the same destination"})
+		} else if !c20GuardOK(a.what, a.fn, a.write, names) {
 			o.fail("lockset-violation", map[string]any{"what": a.what, "in": a.fn, "write": a.write, "must_hold": names, "reached": a.root})
 		}
 	}
@@ -2038,6 +2309,8 @@ func c20GuardOK(what, fn string, write bool, must []string) bool {
 		return has("shard:W")
 	case "getTables":
 		return any("tm")
+	case "shardEscape":
+		return false // live shard state must never reach a caller that does not hold the shard lock
 	}
 	return false
 }
